@@ -132,7 +132,7 @@ def run_collision_routes(case, rec):
     k = case.get("pick", 0)
     n = 0
     for route, ops in sorted(per_route.items()):
-        for op in (ops[k % len(ops)], ops[(k + 1) % len(ops)]):
+        for op in (ops if case.get("all_ops") else (ops[k % len(ops)], ops[(k + 1) % len(ops)])):
             plan = eng.plan(op)
             if plan.status != "refuse":
                 continue
@@ -698,11 +698,12 @@ def route_cases(tier):
 
 # (what round 8 added to the case domain; part of the evidence text)
 RULE_ROUND8 = " One generated forest in 20 (60 in the thorough tier) is a BIG one (gen.big_specs: a child list of 11..300 nodes, that many clones of one data object, more than 256 nodes), with node references aimed at notable positions of the long child lists. Part big-merges: a refused bulk copy (copy_to(add_self=False), add(tree), shortcut methods) between two child lists of 4..129 nodes with the conflicting child at a generated place. Part big-trees: 2-4 operations with invalid arguments on a big tree. Part warnings-as-errors: the refusal histories with warnings.simplefilter('error') in effect - EVERY call that raises must leave the tree as it was. before= also a node of an unrelated tree of the other node class. Part python-O: refusals and faults with PYTHONOPTIMIZE=1."
-RULE = RULE + RULE_ROUND8
+RULE = RULE + RULE_ROUND8 + " Part directed-un-nest-patterns: C03's patterns, every colliding operation refused with the tree unchanged."
 
 PARTS = [
     Part("refusals", run_refusals, strategy=refusal_cases, n={"quick": 600, "thorough": 100000}),
     Part("collision-routes", run_collision_routes, strategy=route_cases, n={"quick": 300, "thorough": 60000}),
+    Part("directed-un-nest-patterns", run_collision_routes, enum=lambda tier: __import__("checks.c03_sibling_unique", fromlist=["x"]).directed_unnest_cases(tier)),
     Part("faults", run_faults, strategy=fault_cases, n={"quick": 80, "thorough": 10000}),
     Part("warnings-as-errors", run_refusals_strict_warnings, strategy=refusal_cases, n={"quick": 200, "thorough": 20000}),
     Part("big-merges", run_refusals, strategy=big_merge_cases, n={"quick": 150, "thorough": 5000}),
